@@ -83,6 +83,10 @@ pub fn inputs(_seed: u64, open: &[String]) -> impl Iterator<Item = Value> {
         json!({"schema": "dynamic", "query": "{ echo(a: null) }", "data": {"echo": "null"}}),
         json!({"schema": "dynamic", "query": "query($a: Int) { echo(a: $a) }", "variables": {"a": null}, "data": {"echo": "null"}}),
         json!({"schema": "dynamic", "query": "query($a: Int) { echo(a: $a) }", "variables": {"a": 3}, "data": {"echo": "3"}}),
+        json!({"schema": "dynamic", "query": "query($a: Int) { echo(a: $a) }", "data": {"echo": "5"}}),                       // omitted variable: the argument default applies
+        json!({"schema": "dynamic", "query": "query($a: Int = 8) { echo(a: $a) }", "data": {"echo": "8"}}),                   // variable default wins over the argument default
+        json!({"schema": "dynamic", "query": "query($a: Int = 8) { echo(a: $a) }", "variables": {"a": 1}, "data": {"echo": "1"}}),
+        json!({"schema": "dynamic", "query": "query($a: Int) { plain(a: $a) }", "data": {"plain": "absent"}}),                // omitted stays omitted when there is no default
         json!({"schema": "dynamic", "query": "{ plain }", "data": {"plain": "absent"}}),
         json!({"schema": "dynamic", "query": "{ plain(a: null) }", "data": {"plain": "null"}}),
     ];
